@@ -271,7 +271,7 @@ def rows(job, lim, method, path, order, zk, ratio, cplx):
         for a, b in zip(got, want):
             claims += [a - b <= sn.ratval(tau), b - a <= sn.ratval(tau)]
         job.prove('row %d == phi(0)' % i, z3.And(*claims), box,
-                  dict(key='C18:rows:%s:%s:limit-missed' % (method, path), kind='rows', row=i, names=names, tau=float(tau)))
+                  dict(key='C18:rows:%s:%s:limit-missed' % (method, path), kind='rows', row=i, names=names, tau=float(tau), stronger_than_property=True))
     job.confirm('rows checked', tight > 0)
     # twin: degree order+2 leaves a visible remainder in the first row
     f2, names2, coefs2 = poly_model(order + 2, cplx, z0)
@@ -313,7 +313,7 @@ def e2e(job, lim, order, zk):
         v = cm.flat_list(val)[0]
         d = sn.lift(v) - sn.lift(coefs[0])
         job.prove('Limit(f)(z0) == phi(0)', z3.And(d <= tau, -d <= tau), p.conds(),
-                  dict(key='C18:e2e:limit-missed', kind='e2e', names=names))
+                  dict(key='C18:e2e:limit-missed', kind='e2e', names=names, stronger_than_property=True))
         e = cm.flat_list(info.error_estimate)[0]
         job.prove('error_estimate >= 0', sn.lift(e) >= 0, p.conds(), dict(key='C18:e2e:negative-error', kind='e2e'))
 
@@ -353,7 +353,7 @@ def residue(job, lim, pole, zk, method):
         tight += 1
         d = z3.simplify(sn.lift(new[i, 0]) - sn.lift(coefs[0]), som=True)
         job.prove('residue row %d == g(z0)' % i, z3.And(d <= sn.ratval(tau), -d <= sn.ratval(tau)), box,
-                  dict(key='C18:residue:p%d:wrong-residue' % pole, kind='residue', row=i, names=names, tau=float(tau)))
+                  dict(key='C18:residue:p%d:wrong-residue' % pole, kind='residue', row=i, names=names, tau=float(tau), stronger_than_property=True))
     job.confirm('rows checked', tight > 0)
 
 
